@@ -20,6 +20,35 @@ def add(pid, technique, text, note="", design_ref=None):
     CHECKS[pid] = (technique, text, note, design_ref or "3 (%s)" % pid)
 
 
+SYNC_NOTE = ("Pipeline shapes, node kinds/parameters and lengths are sharded (listed in the evidence); "
+             "values are symbolic ints (unbounded where no node inspects them, [0,2] where one does). "
+             "Reference semantics engine/refsem.py is trusted as the statement of the documented list-level meaning.")
+
+add("C01",
+    "CrossHair/z3 symbolic execution of real synchronous pipelines against an independent reference interpreter, "
+    "compared at a recording node behind every node and on the global delivery order; slice index arithmetic "
+    "from a symbolic (unbounded) pre-state",
+    "Bounded symbolic model checking of the real node code: for each pipeline shape in the catalogue every input "
+    "sequence of the stated length (every value, every source interleaving, every flush placement, every sibling "
+    "attachment order) is decided by the solver.",
+    SYNC_NOTE)
+
+add("C10",
+    "CrossHair/z3-driven exploration of the same pipelines with 0/1/2 metadata dictionaries per element (symbolic), "
+    "metadata argument recorded behind every node and compared with the reference interpreter's provenance",
+    "Bounded model checking: every assignment of 0, 1 or 2 metadata dictionaries to the elements, every value "
+    "pattern over the key domain, every interleaving/flush placement within the bounds is explored via solver forks "
+    "(solver-driven enumeration; the concrete remainder of each path runs the real code).",
+    SYNC_NOTE)
+
+add("C05",
+    "CrossHair/z3-driven exploration of the real pipelines with instrumented RefCounters: counts compared with the "
+    "reference interpreter's holder multiset after every emit; inductive one-step obligations from symbolic "
+    "pre-states with unconstrained counter values",
+    "Bounded model checking of counts at every quiescent point (synchronous pipelines) plus one-step inductive "
+    "obligations for buffering nodes that extend the result to histories of any length.",
+    SYNC_NOTE + " Holder convention = the one fixed by the existing tests.")
+
 add("C14",
     "CrossHair/z3 exploration of all schedules (arrival vs consumer completion) over the real latest() code on the virtual loop",
     "Bounded symbolic model checking: every interleaving of up to the stated number of arrivals and consumer completions is explored (solver forks at every schedule choice); CONFIRMED means the path tree was exhausted.",
